@@ -5,7 +5,6 @@ use std::process::{Child, Command, Stdio};
 use std::time::{Duration, Instant};
 use tungstenite::{stream::MaybeTlsStream, Message};
 
-pub const ADLT_BIN: &str = "/verif/harness/target/adlt-bin/release/adlt";
 type WS = tungstenite::WebSocket<MaybeTlsStream<std::net::TcpStream>>;
 
 pub struct Server {
@@ -20,7 +19,7 @@ impl Server {
             let port = portpicker::pick_unused_port().ok_or("no free port")?;
             let stderr_path = dir.join(format!("server_{}_{}.stderr", port, attempt));
             let errf = std::fs::File::create(&stderr_path).map_err(|e| e.to_string())?;
-            let mut cmd = Command::new(ADLT_BIN);
+            let mut cmd = Command::new(crate::engine::adlt_bin());
             cmd.args(["remote", "-p", &port.to_string()]).env("TZ", "UTC").env("RAYON_NUM_THREADS", "2").stdin(Stdio::null()).stdout(Stdio::null()).stderr(errf);
             match schedule {
                 Some(s) => {
@@ -30,7 +29,7 @@ impl Server {
                     cmd.env_remove("ADLT_VERIF_PARSE_SCHEDULE");
                 }
             }
-            let mut child = cmd.spawn().map_err(|e| format!("cannot spawn {}: {}", ADLT_BIN, e))?;
+            let mut child = cmd.spawn().map_err(|e| format!("cannot spawn {}: {}", crate::engine::adlt_bin().display(), e))?;
             // wait until it listens
             let end = Instant::now() + Duration::from_secs(5);
             let mut ok = false;
